@@ -40,28 +40,45 @@ Proof.
   - cbn [plus]. rewrite !wslice_S. cbn [app]. f_equal. rewrite <- IH. do 2 f_equal. lia.
 Qed.
 
-Definition is_slice (off : Z) (bytes : list Z) : Prop := bytes = wslice off (length bytes).
+(** [hi]: an upper bound of the stream offsets ever inserted (e.g. the length of what the sender
+    has written); part of the invariant so that reads provably never return bytes beyond it *)
+Variable hi : Z.
+
+Definition is_slice (off : Z) (bytes : list Z) : Prop :=
+  bytes = wslice off (length bytes) /\ (bytes = [] \/ (0 <= off /\ off + zlen bytes <= hi)).
 Definition good (b : buf) : Prop := is_slice (b_off b) (b_bytes b).
 
 Lemma is_slice_nil off : is_slice off [].
-Proof. reflexivity. Qed.
+Proof. split; [reflexivity | now left]. Qed.
+
+Lemma nil_or_not {A} (l : list A) : l = [] \/ (0 < length l)%nat.
+Proof. destruct l; [now left | right; cbn; lia]. Qed.
 
 Lemma is_slice_skip off bytes k : is_slice off bytes -> 0 <= k ->
   is_slice (off + k) (zskipn k bytes).
 Proof.
-  unfold is_slice, zskipn. intros H Hk. rewrite H at 1. rewrite wslice_skipn, skipn_length.
-  f_equal. lia.
+  unfold is_slice, zskipn. intros [H B] Hk. split.
+  - rewrite H at 1. rewrite wslice_skipn, skipn_length. f_equal. lia.
+  - destruct (nil_or_not (skipn (Z.to_nat k) bytes)) as [E|E]; [now left|right].
+    rewrite skipn_length in E. destruct B as [->|B]; [cbn in E; lia|].
+    unfold zlen in *. rewrite skipn_length. lia.
 Qed.
 
 Lemma is_slice_first off bytes k : is_slice off bytes -> is_slice off (zfirstn k bytes).
 Proof.
-  unfold is_slice, zfirstn. intros H. rewrite H at 1. rewrite wslice_firstn, firstn_length. reflexivity.
+  unfold is_slice, zfirstn. intros [H B]. split.
+  - rewrite H at 1. rewrite wslice_firstn, firstn_length. reflexivity.
+  - destruct B as [->|B]; [left; now rewrite firstn_nil|right].
+    unfold zlen in *. rewrite firstn_length. lia.
 Qed.
 
 Lemma is_slice_app off b1 b2 : is_slice off b1 -> is_slice (off + zlen b1) b2 -> is_slice off (b1 ++ b2).
 Proof.
-  unfold is_slice, zlen. intros H1 H2. rewrite H1 at 1. rewrite H2 at 1.
-  rewrite wslice_app, app_length. reflexivity.
+  unfold is_slice, zlen. intros [H1 B1] [H2 B2]. split.
+  - rewrite H1 at 1. rewrite H2 at 1. rewrite wslice_app, app_length. reflexivity.
+  - destruct B2 as [->|B2]; [rewrite app_nil_r; exact B1|].
+    destruct B1 as [->|B1]; [right; cbn [app length] in *; lia|].
+    right. rewrite app_length. lia.
 Qed.
 
 Lemma good_dbuf : good dbuf.
@@ -140,6 +157,16 @@ Lemma defragment_fields fixed a :
   bytes_read (defragment fixed a) = bytes_read a /\ end_ (defragment fixed a) = end_ a.
 Proof. unfold defragment. destruct (mark_all _ _ _). cbn. auto. Qed.
 
+Lemma defragment_preserves_content fixed a :
+  Forall good (data a) ->
+  Forall good (data (defragment fixed a)) /\
+  bytes_read (defragment fixed a) = bytes_read a /\
+  ordered (defragment fixed a) = ordered a.
+Proof.
+  intros H. pose proof (defragment_fields fixed a) as (E1 & _ & E3 & _).
+  split; [now apply defragment_good | auto].
+Qed.
+
 (* ------------------------------------------------------------ insert *)
 Lemma insert_tail_good fixed a offset bytes alloc a' ok :
   insert_tail fixed a offset bytes alloc = Some (a', ok) ->
@@ -172,7 +199,7 @@ Proof.
         [|discriminate].
       apply andb_true_iff in E2 as [E2 E4]. apply andb_true_iff in E2 as [E2 E3].
       apply IH in H.
-      * destruct H as (G & S & B & O & En). repeat split; auto.
+      * destruct H as (G & S & B & O & En). split; [exact G|]. split; [exact S|]. auto.
       * cbn [push_buffer data]. apply push_good; [exact Hd|]. unfold good. cbn [b_off b_bytes].
         now apply is_slice_first.
       * replace de with (ds + (de - ds)) at 1 by lia. apply is_slice_skip; [|lia].
@@ -293,7 +320,7 @@ Proof.
           inversion HF; subst; clear HF.
           unfold read_post. cbn [data ordered bytes_read].
           apply pop_good in P; [|exact Hd]. destruct P as [_ P].
-          repeat split; auto. }
+          repeat split; auto; apply Gc'. }
       destruct ord.
       * destruct (bytes_read a <? b_off chunk) eqn:E1.
         { inversion H; subst. repeat split; auto. now rewrite D. }
@@ -496,19 +523,21 @@ Qed.
 Theorem ordered_prefix os a' evs :
   Forall op_ok os -> exec init os = Some (a', evs) ->
   obytes evs = wslice 0 (length (obytes evs)) /\
+  (obytes evs = [] \/ zlen (obytes evs) <= hi) /\
   chain 0 (filter ev_ord evs) /\
   (ordered a' = true -> bytes_read a' = zlen (obytes evs)).
 Proof.
   intros Hok H. apply exec_inv in H; auto; [|constructor].
-  destruct H as (_ & _ & I3). destruct (I3 eq_refl) as (J1 & J2 & J3).
-  repeat split; auto.
+  destruct H as (_ & _ & I3). destruct (I3 eq_refl) as ([J1 J1'] & J2 & J3).
+  repeat split; auto. destruct J1' as [E|E]; [now left | right; cbn [bytes_read init] in E; lia].
 Qed.
 
 (** (b, content part) every chunk returned by any read, ordered or not, equals the written
     sequence at its offset. *)
 Theorem reads_exact os a' evs :
   Forall op_ok os -> exec init os = Some (a', evs) ->
-  Forall (fun e => ev_bytes e = wslice (ev_off e) (length (ev_bytes e))) evs.
+  Forall (fun e => ev_bytes e = wslice (ev_off e) (length (ev_bytes e)) /\
+                   (ev_bytes e = [] \/ (0 <= ev_off e /\ ev_off e + zlen (ev_bytes e) <= hi))) evs.
 Proof.
   intros Hok H. apply exec_inv in H; auto; [|constructor]. now destruct H.
 Qed.
